@@ -63,6 +63,8 @@ type ReplayFile struct {
 	Notes    map[string]string   `json:"notes"`
 	Sig      string              `json:"signature"`
 	Race     bool                `json:"race,omitempty"`
+	// AcceptPanic: the property also forbids crashes, so a native panic confirms a predicted assertion failure
+	AcceptPanic bool `json:"accept_panic,omitempty"`
 }
 
 type jobResult struct {
@@ -309,7 +311,7 @@ func cmdCheck(argv []string) int {
 					}
 					budgetReplays++
 				}
-				rf := &ReplayFile{Property: id, Group: g.Name, Overlay: g.Overlay, Pkg: g.Pkg, Entry: g.Entry, Args: jr.args, Kind: c.o.Kind, Msg: c.o.Msg, Site: c.o.Site, Nondet: c.o.Nondet, Notes: c.o.Notes, Sig: sig, Race: g.Race}
+				rf := &ReplayFile{Property: id, Group: g.Name, Overlay: g.Overlay, Pkg: g.Pkg, Entry: g.Entry, Args: jr.args, Kind: c.o.Kind, Msg: c.o.Msg, Site: c.o.Site, Nondet: c.o.Nondet, Notes: c.o.Notes, Sig: sig, Race: g.Race, AcceptPanic: !g.PanicOK}
 				rfs = append(rfs, rf)
 			}
 			var confirmed []bool
@@ -597,7 +599,7 @@ func nativeReplay(rfs []*ReplayFile, workDir string) []bool {
 			switch m[1] {
 			case "PANIC":
 				if rf.Kind == "fail" {
-					confirmed[i] = strings.Contains(m[2], "VERIF-FAIL")
+					confirmed[i] = strings.Contains(m[2], "VERIF-FAIL") || rf.AcceptPanic
 				} else {
 					confirmed[i] = !strings.Contains(m[2], "VERIF-FAIL")
 				}
